@@ -334,6 +334,12 @@ def main(run: core.Run):
         pitems.append((world, 1, 'MEM'))
         if world % 2 == 0:
             pitems.append((world, world // 2, 'HYBRID'))
+    # (world, k) pairs for which world * (k / world) != k in floating point
+    inexact = [(w, k) for w in range(1, 257 if not thorough else 601)
+               for k in divisors(w) if w * (k / w) != k]
+    run.notes['inexact_fraction_pairs'] = len(inexact)
+    for w, k in inexact[:5 if not thorough else 60]:
+        pitems.append((w, k, 'float'))
     core.pmap(run, precond_case, pitems, weight=lambda it: it[0])
     cross_process(run)
     run.c['states'] = run.c.get('evaluations', 0)
@@ -345,7 +351,9 @@ def main(run: core.Run):
         'dictionaries (ties, zeros, 40 layers, 1 layer, wide range); worlds '
         f'<= {8 if thorough else 6}: additionally ALL cost dictionaries with '
         '<=3 layers and costs in {0,1,2}; KFACPreconditioner construction '
-        'with the fraction as float and as strategy enum in simulated worlds;'
+        'with the fraction as float and as strategy enum in simulated worlds '
+        '(small worlds and the first (world, k) pairs whose fraction is not '
+        'exact in floating point, e.g. 98/2);'
         ' evaluations = assignment instances built; non-trivial = world>1 '
         'and >1 layer')
     run.sample({'world': 98, 'k': 2, 'fraction': 2 / 98})
